@@ -45,7 +45,7 @@ RULE = ('a case is one HISTORY: a store of 2..6 small Frames (9 kinds: string/in
         'histories of length 3 x max_persist None,1,2 quick / length 4 x None,1,2,3 thorough, over a fixed 10-operation alphabet on 3 labels), '
         'random (online generation from the current labels incl. derived Buses, get/iter_element/sort_values and per-label configurations '
         'with any max_persist), stale (file touched / replaced by a file with OTHER Frames under the same labels / deleted at every point, the new mtime both newer and OLDER than the recorded one), wide-slice (5..7 labels, max_persist 2..3: one or two single loads, then iloc[a:b] / loc[x:y] / head / tail needing more loads than max_persist, then every label read back, the still-loaded ones first; all 5104 shapes thorough, 240 sampled quick, two thirds of them shapes where a loaded Frame is evicted and re-instated mid-call), malformed keys, kernel (private _loaded/_last_accessed '
-        'and the read calls reaching the store), Bus._store_reader against a stub, write/reopen round trip with full Frame literals, one '
+        'and the read calls reaching the store), Bus._store_reader against a stub, write/reopen round trip with full Frame literals (also crossed: 4 formats x label kinds str/int/date/tuple/None through label_encoder/decoder x one StoreConfig vs a per-label StoreConfigMap with differing index_depth/columns_depth/include_index), one '
         'regression stratum per repaired defect (the former witness inputs, specification = the correct behaviour). Non-trivial: max_persist '
         'active or the stale file actually refused a read; distinct = distinct (store, max_persist, history).')
 ASSUMPTIONS = [
@@ -983,6 +983,91 @@ def roundtrip_cases(ctx, work):
             ctx.count(f'optional:{fmt}:library-missing')
 
 
+def _decode_none(fn):
+    return lambda text: None if text == 'None' else fn(text)
+
+
+def label_kinds():
+    """Bus label kinds and the label_encoder / label_decoder a store needs for them (labels that differ from their encoding)."""
+    import ast as _ast
+    import datetime as _dt
+    return {
+        'str': (['a', 'b', 'c', 'd e', 'f'], None, None),
+        'int': ([2020, 2021, 7, -3, 0], str, int),
+        'date': ([_dt.date(2020, 1, 1), _dt.date(2021, 5, 17), _dt.date(1999, 12, 31), _dt.date(2000, 2, 29), _dt.date(2024, 7, 4)],
+                 str, _dt.date.fromisoformat),
+        'tuple': ([('a', 1), ('b', 2), ('a', 3), ('c', 0), ('b', -1)], str, _ast.literal_eval),
+        'none+str': ([None, 'x', 'y', 'z', 'w'], str, _decode_none(str)),
+    }
+
+
+def roundtrip_label_cases(ctx, work):
+    """formats x label kinds (str, int, date, tuple, None -- through label_encoder/label_decoder) x the configuration given as
+    ONE StoreConfig or as a per-label StoreConfigMap whose entries DIFFER from the default and from each other in
+    index_depth / columns_depth / include_index (an auto-index Frame next to labelled and hierarchical ones):
+    every label gives back a Frame equal to the one written, labels in the same order."""
+    import static_frame as sf
+    rng = ctx.rng
+    for rep_ in range(ctx.n(1, 12)):
+        for fmt in FORMATS:
+            for lk, (pool, enc, dec) in label_kinds().items():
+                for mapped in (False, True):
+                    n = rng.randrange(2, 6)
+                    labels = pool[:1] + rng.sample(pool[1:], n - 1) if lk == 'none+str' else rng.sample(pool, n)
+                    if mapped:
+                        # by construction: include_index=False (auto) beside include_index=True entries, different depths
+                        kinds = ['auto', rng.choice(['ih_idx', 'ih_cols'])] + [rng.choice(kinds_pool(fmt)) for _ in range(n - 2)]
+                        rng.shuffle(kinds)
+                    else:
+                        kinds = uniform_kinds(rng, n, fmt)
+                    keys = rng.sample(range(-40, 40), n)
+                    frames = [make_frame(k, l, v, rng) for k, l, v in zip(kinds, labels, keys)]
+
+                    def mk(kind):
+                        idx, col, inc = KIND_CFG[kind]
+                        return sf.StoreConfig(index_depth=idx, columns_depth=col, include_index=inc, include_columns=True,
+                                              label_encoder=enc, label_decoder=dec)
+                    if fmt == 'zip_pickle':
+                        cfg = None if enc is None else sf.StoreConfig(label_encoder=enc, label_decoder=dec)
+                        form = 'none' if cfg is None else 'one StoreConfig (label codec only)'
+                    elif mapped:
+                        cfg = sf.StoreConfigMap({l: mk(k) for l, k in zip(labels, kinds)},
+                                                default=sf.StoreConfig(label_encoder=enc, label_decoder=dec))
+                        form = 'per-label StoreConfigMap'
+                    else:
+                        cfg = mk(kinds[0])
+                        form = 'one StoreConfig'
+                    mp = rng.choice([None, 1, 2, n])
+                    fp = os.path.join(work.tmp, work.name('rl') + EXT[fmt])
+                    py_fail, got_labels, read_lit = None, [], '[]'
+                    try:
+                        bus = sf.Bus.from_frames(frames)
+                        if cfg is None:
+                            getattr(bus, 'to_' + fmt)(fp)
+                            back = getattr(sf.Bus, 'from_' + fmt)(fp, max_persist=mp)
+                        else:
+                            getattr(bus, 'to_' + fmt)(fp, config=cfg)
+                            back = getattr(sf.Bus, 'from_' + fmt)(fp, config=cfg, max_persist=mp)
+                        got_labels = list(back.keys())
+                        got = [f for _, f in back.items()]
+                        read_lit = lit.lst([lit.oframe(f) for f in got])
+                        labels_lit = lit.vlist(got_labels)
+                    except Exception as e:  # noqa
+                        labels_lit = '[]'
+                        py_fail = f'writing / reading the store back raised {type(e).__name__}: {e}'
+                    finally:
+                        os.path.exists(fp) and os.remove(fp)
+                    ctx.count(f'roundtrip-labels:{fmt}', f'roundtrip-labels:{lk}', f'roundtrip-labels:{"map" if mapped else "one"}')
+                    term = f'rt_ok {lit.vlist(labels)} {labels_lit} {lit.lst([lit.oframe(f) for f in frames])} {read_lit}'
+                    yield Case('api:roundtrip-labels',
+                               {'format': fmt, 'label kind': lk, 'labels': [repr(l) for l in labels], 'kinds': kinds, 'config': form,
+                                'max_persist': mp, 'labels_read': [repr(l) for l in got_labels],
+                                'call': f'Bus.from_frames(frames).to_{fmt}(fp, config); list(Bus.from_{fmt}(fp, config, max_persist).items())',
+                                'shapes_written': [list(f.shape) for f in frames]},
+                               m=term, s=term, py_fail=py_fail,
+                               tags={'stratum': 'roundtrip-labels', 'format': fmt, 'labels': lk, 'mapped': mapped})
+
+
 # the fixed alphabet of the exhaustive stratum: 3 labels in store order f1, f2, f0
 EXH_ORDER = ['f1', 'f2', 'f0']
 EXH_ALPHABET = [
@@ -1412,6 +1497,7 @@ def cases(ctx):
         yield from regression_cases(ctx, work)
         yield from store_reader_cases(ctx)
         yield from roundtrip_cases(ctx, work)
+        yield from roundtrip_label_cases(ctx, work)
         yield from malformed_cases(ctx, work)
         yield from wide_slice_cases(ctx, work)
         yield from stale_cases(ctx, work)
